@@ -299,6 +299,48 @@ def direct_interrupt_part(chk, exprs):
         shutil.rmtree(W, ignore_errors=True)
 
 
+def long_limit_part(chk):
+    """limits of ten minutes and more are waited for in slices (_join_with_keep_alive): with a clock that only advances
+    when the code waits, the total waiting time is min(limit, run time of the process), never more, in slices of at most
+    ten minutes, with a keep-alive message per completed slice"""
+    rng = chk.rng
+    o_time = swt.time
+    try:
+        cases = [(600, None), (601, None), (1199, None), (1200, None), (1201, None), (3600, None), (5000, 4999), (1800, 700),
+                 (1800, 600), (1300, 1250), (700, 650), (10 ** 5, None)]
+        cases += [(rng.randint(600, 9000), rng.choice([None, rng.randint(1, 9000)])) for _ in range(12 if chk.tier == "quick" else 200)]
+        for limit, finishes in cases:
+            clock = {"t": 1000.0}
+            slices, alive_msgs = [], []
+
+            class FakeThread:
+                def join(self, t=None):
+                    end = None if finishes is None else 1000.0 + finishes
+                    if t is None:
+                        clock["t"] = end if end is not None else clock["t"] + 10 ** 9
+                        return
+                    slices.append(t)
+                    if end is not None and clock["t"] + t >= end:
+                        clock["t"] = max(clock["t"], end)
+                    else:
+                        clock["t"] += t
+
+                def is_alive(self):
+                    return finishes is None or clock["t"] < 1000.0 + finishes
+            swt.time = lambda: clock["t"]
+            swt._join_with_keep_alive(lambda sec: alive_msgs.append(sec), FakeThread(), limit)
+            waited = clock["t"] - 1000.0
+            want = limit if finishes is None else min(limit, finishes)
+            case = dict(limit=limit, process_runs_for=finishes)
+            if abs(waited - want) > 1e-6 or any(x > 600 + 1e-9 or x <= 0 for x in slices):
+                chk.violation("C16 a limit of ten minutes or more is waited for exactly (in slices of at most ten minutes)", case,
+                              dict(waited=want), dict(waited=waited, slices=slices[:8]))
+            chk.case(("long-limit", limit, finishes))
+            chk.count("long_limit_cases")
+    finally:
+        swt.time = o_time
+
+
 def sudo_kill_part(chk):
     """the kill is delivered through `sudo denoise kill <pid>` when the benchmark runs under denoise: a stand-in sudo first
     on PATH runs the repository's own denoise.py with the arguments it was given"""
@@ -462,6 +504,7 @@ def run(chk):
     direct_part(chk, exprs)
     direct_interrupt_part(chk, exprs)
     sudo_kill_part(chk)
+    long_limit_part(chk)
     sessions_part(chk)
     try:
         res = core.coq_eval(IMPORTS, [e[3] for e in exprs], chk.scratch, chunk=100)
